@@ -47,3 +47,9 @@ func (l *RichH) h5()            {}
 func (l *RichH) h6()            {}
 func (l *RichH) h7()            {}
 func (l *RichH) Mark()          {}
+
+// Pair is a generic provider: the default name of an instantiation with two type arguments contains a
+// comma inside brackets ("verifharness/world/Pair[int,string]").
+type Pair[K comparable, V any] struct{ Tag string }
+
+func (*Pair[K, V]) A() {}
